@@ -50,6 +50,7 @@ def run(ctx, tier):
     for r, t in (("T1", "shortcut byte classes are subsets of what the slow path leaves unchanged"),
                  ("T2", "hostname shortcut excludes IPv4-shaped hosts"), ("T3", "component slots"),
                  ("T4", "protocol canonicaliser byte classes"),
+                 ("T6", "a scheme's default port is compared with a port only where 0 (= the scheme has no default port, e.g. file) is told apart"),
                  ("T5", "each URLPattern canonicaliser scans and encodes with the one percent-encode set of its component")):
         ctx.rule(r, t)
     cfgs = C.configs_for(tier, thorough=["release", "devchecks", "amalgamated"])
@@ -58,6 +59,99 @@ def run(ctx, tier):
         ctx.set_config(name)
         check(ctx, fxs[name])
         check_canonicaliser_sets(ctx, fxs[name])
+        check_default_port_uses(ctx, fxs[name])
+
+
+DEFAULT_PORT_FNS = ("ada::scheme::get_special_port", "ada::url_base::get_special_port", "ada::url_base::scheme_default_port")
+
+
+def check_default_port_uses(ctx, fx):
+    """T6.  scheme::get_special_port() returns 0 both for non-special schemes and for `file`, which is special but has no
+    default port.  Every place that elides or refuses a port because it equals the default must therefore treat 0 apart
+    (`if (p) ...`, `p != 0 && p == x`, `(p == 0 && x == 0) || p != x`): otherwise port 0 of a file URL / pattern is taken for
+    a default port and dropped."""
+    from lib.mustflow import MustFlow
+    n = 0
+    for f in fx.functions:
+        if not C.first_party(f):
+            continue
+        calls = [(nd, st, b) for nd, st, b in C.all_nodes(f) if nd.get("k") == "call" and (nd.get("qname") or "") in DEFAULT_PORT_FNS]
+        if not calls:
+            continue
+        if f["qname"] in DEFAULT_PORT_FNS:
+            continue
+        holders = {}          # local id -> name, for locals initialised from the call
+        for b in f["blocks"]:
+            for st in b["stmts"]:
+                if st["k"] == "decl":
+                    for v in st["vars"]:
+                        i0 = X.strip(v.get("init")) if v.get("init") is not None else None
+                        if isinstance(i0, dict) and i0.get("k") == "call" and (i0.get("qname") or "") in DEFAULT_PORT_FNS:
+                            holders[v["id"]] = v["name"]
+        mf = MustFlow(f)
+        seen = set()
+        # full expressions (statement expressions, initialisers, whole if-conditions): a zero test that is part of the same
+        # full expression as the comparison counts, whichever CFG block the pieces were split into
+        fulls = []
+        for b in f["blocks"]:
+            for st in b["stmts"]:
+                if st["k"] in ("expr", "return") and st.get("e") is not None:
+                    fulls.append(st["e"])
+                if st["k"] == "decl":
+                    fulls += [v["init"] for v in st["vars"] if v.get("init") is not None]
+            if b["term"].get("kind") == "IfStmt" and b["term"].get("cond") is not None:
+                fulls.append(b["term"]["cond"])
+
+        def zero_test_with(cmp_loc, lid):
+            for root in fulls:
+                nodes = list(X.walk(root))
+                if not any(x.get("loc") == cmp_loc for x in nodes):
+                    continue
+                for x in nodes:
+                    if x.get("k") == "bin" and x.get("op") in ("==", "!=") and any(X.const_val(y) == 0 for y in (x["l"], x["r"])) and \
+                            any(z.get("k") == "ref" and z.get("id") == lid for y in (x["l"], x["r"]) for z in X.walk(y)):
+                        return True
+            return False
+        for b in f["blocks"]:
+            units = [(i, st, st.get("e") if st["k"] in ("expr", "return") else None) for i, st in enumerate(b["stmts"])]
+            units += [(i, st, v.get("init")) for i, st in enumerate(b["stmts"]) if st["k"] == "decl" for v in st["vars"]]
+            t = b["term"]
+            if t.get("cond") is not None:
+                units.append((len(b["stmts"]), t, t["cond"]))
+            for i, st, root in units:
+                if root is None:
+                    continue
+                for cmp_ in X.walk(root):
+                    is_cmp = (cmp_.get("k") == "bin" and cmp_.get("op") in ("==", "!=")) or \
+                        (cmp_.get("k") == "call" and cmp_.get("name") in ("operator==", "operator!="))
+                    if not is_cmp or id(cmp_) in seen:
+                        continue
+                    sides = [cmp_.get("l"), cmp_.get("r")] if cmp_.get("k") == "bin" else list(cmp_.get("args", [])) + [cmp_.get("recv")]
+                    uses_direct = any(nd.get("k") == "call" and (nd.get("qname") or "") in DEFAULT_PORT_FNS for sd in sides for nd in X.walk(sd))
+                    uses_local = [nd for sd in sides for nd in X.walk(sd) if nd.get("k") == "ref" and nd.get("id") in holders]
+                    if not uses_direct and not uses_local:
+                        continue
+                    other_zero = any(X.const_val(sd) == 0 for sd in sides if sd is not None)
+                    if other_zero:
+                        continue            # this *is* the test against 0
+                    seen.add(id(cmp_))
+                    n += 1
+                    ok = False
+                    how = ""
+                    if uses_local and not uses_direct:
+                        nm = uses_local[0]["name"]
+                        pth = "L#%s:%s" % (uses_local[0]["id"], nm)
+                        fs = mf.facts_before(b["id"], i) or frozenset()
+                        # guarded by `if (p)` / `p != 0` on the path, or the zero test is part of the same condition
+                        same = zero_test_with(cmp_.get("loc"), uses_local[0]["id"])
+                        ok = ("eng:" + pth) in fs or any(x.startswith("ne:%s==" % pth) for x in fs) or bool(same)
+                        how = "0 told apart (%s)" % ("dominating test" if not same else "in the same condition")
+                    where = (st.get("loc") or st.get("cond_loc") or f["loc"]).replace("/repo/", "")
+                    ctx.check("T6", "%s: `%s`" % (f["qname"].split("<")[0], X.show(cmp_)[:70]), ok, how,
+                              "the scheme's default port is compared with a port value without telling 0 apart: for `file` (special, no "
+                              "default port) get_special_port() is 0, so a port \"0\" is taken for the default port and dropped",
+                              where=where)
+    ctx.floor("T6", n, 6, "comparisons of a scheme's default port with a port")
 
 
 def check_canonicaliser_sets(ctx, fx):
